@@ -404,8 +404,11 @@ def search(ctx):
     honest, _ = all_cases(ctx)
     # (1) exhaustive on toy curves: all d, k in [1, n-1], e in [0, n-1]; fast loop, confirmed through run_case
     with E.timed(ctx, "search: toy exhaustive"):
-        fixed = E.get_fixed_toys() + [E.Toy(23, 1, 4, (0, 2))]
-        toys = [t for t in fixed if t.n <= (19 if q else 99)] + E.pick_toys(rng, 1 if q else 5, nmax=31 if q else 60)
+        # Toy(29, 7, 11), n = 23 < p: x = 2 and x + n = 25 are BOTH x-coordinates of curve points, so a recovery that also
+        # lifts r + n (SEC 1 4.1.6 with j up to the cofactor, wrong for cofactor 1) returns up to four keys here - on the named
+        # curves such an r needs x(kG) < p - n, i.e. about 2^-128 of the nonces
+        fixed = E.get_fixed_toys() + [E.Toy(23, 1, 4, (0, 2)), E.Toy(29, 7, 11, (2, 2))]
+        toys = [t for t in fixed if t.n <= (23 if q else 99)] + E.pick_toys(rng, 1 if q else 5, nmax=31 if q else 60)
         for t in toys:
             n, p, a = t.n, t.p, t.a
             for mode in ("j", "a") if (n <= 19 or not q) else ("j",):
